@@ -39,6 +39,9 @@ LAYOUTS = {
     # a broad photometric band whose centre lies inside a run of narrow spectral bins and whose edges reach far beyond
     # them on both sides
     '4col-band-in-narrow': {'wl': [4.0, 4.1, 4.2, 4.3, 4.4, 4.25], 'bw': [0.05, 0.05, 0.05, 0.05, 0.05, 2.4]},
+    # the bin at the high-wavenumber end is far narrower (10 cm-1) than the native spacing there (58 cm-1) and lies
+    # 23 cm-1 below the native point whose bin contains it; the other bins are 500-700 cm-1 wide
+    '4col-narrow-end': {'wl': [3.377237, 4.347826, 6.25, 10.0], 'bw': [0.011406, 0.95648, 2.42915, 7.977208]},
 }
 
 
